@@ -60,6 +60,16 @@ def handleTreeOps (ws : List String) : Option String :=
       let cfg : H5.Model.TB.Cfg := { innerHTML := c, scripting := sc, namespaceHTMLElements := ns }
       some <| encExcept (fun r => encTree r.1 ++ " | " ++ encList encStr r.2) (H5.Model.Parser.parse cfg input)
     | none => some "bad-request"
+  | "parsex" :: rest =>
+    -- `parse` with the strict flag first: `HTMLParser(strict=…)`; a strict run answers `err ParseError`
+    match run (do let st ← bool; let c ← ostr; let sc ← bool; let ns ← bool; let input ← str; pure (st, c, sc, ns, input)) rest with
+    | some (st, c, sc, ns, input) =>
+      let cfg : H5.Model.TB.Cfg := { innerHTML := c, scripting := sc, namespaceHTMLElements := ns, strict := st }
+      some <| match H5.Model.Parser.parse cfg input with
+        | .ok r => "ok " ++ encTree r.1 ++ " | " ++ encList encStr r.2
+        | .error (.parseError c) => "err ParseError:" ++ encStr c     -- the code of the error that was raised
+        | .error e => "err " ++ e.tag
+    | none => some "bad-request"
   | "tree" :: rest => some (handleTree false rest)
   | "treev" :: rest => some (handleTree true rest)
   | "treer" :: n :: rest =>
